@@ -261,7 +261,40 @@ def c20(run):
                                      "the harness splits Go durations/instants into (days, seconds, ns) and base-10^4 limbs by plain integer division", "sensitivity package is not in the statement and not modelled"])
 
 
-PROPS = {"C01": c01, "C20": c20, "C11": c11, "C14": c14, "C15": c15, "C12": c12, "C13": c13, "C05": c05, "C02": c02, "C03": c03, "C04": c04, "C06": c06, "C07": c07, "C08": c08}
+def c18(run):
+    run.selftest()
+    cases = os.path.join(run.scratch, "applayer-cases.ndjson")
+    run.design_check("AppLayerGen", workers=1, env={"VERIF_GEN": run.tier, "VERIF_CASES": cases})
+    n = dedupe_cases(cases)
+    run.coverage_extra["tlc_generated_cases"] = n
+    t = run.record("applayer", "cases", cases=cases)
+    run.validate("applayer", t, "Trace_applayer", label="(R) spec-enumerated command values and sequences", chunk=3000)
+    run.exhaustive.append("every byte value of every single-byte application-layer payload")
+    t = run.record("applayer", "commands", n=T(run, 60, 3000))
+    run.validate("applayer", t, "Trace_applayer", label="(V) random in-range values of every payload type", chunk=4000)
+    t = run.record("applayer", "streams", n=T(run, 2500, 120000))
+    run.validate("applayer", t, "Trace_applayer", label="(V) command sequences of 1..6 commands", chunk=4000)
+    t = run.record("applayer", "mckeys", n=T(run, 60, 3000))
+    run.validate("applayer", t, "Trace_applayer", label="(V) multicast key derivations (in-TLA+ AES)", chunk=100)
+    run.require_kinds("applayer/alstream", "applayer/mckey")
+    run.rc = run.finish(assumptions=["TS003/TS004/TS005/TS006 command tables in spec/lorawan/AppLayer.tla (field names = the library's leaf field names)", "generic reflection projection harness/proj_applayer.go",
+                                     "a DataFragment (implicit length) is only generated as the last command of a sequence", "DevUpgradeImageAns with status FirmwareValid cannot be constructed through the exported API (only no-panic is asserted for it)"])
+
+
+def c19(run):
+    cases = os.path.join(run.scratch, "frag-cases.ndjson")
+    run.design_check("FragModel", workers=1, env={"VERIF_GEN": run.tier, "VERIF_CASES": cases}, xmx="6g")
+    dedupe_cases(cases)
+    t = run.record("fec", "cases", cases=cases)
+    run.validate("fec", t, "Trace_fec", label="(R) every erasure pattern of small blocks -> real encoder -> spec decoder", chunk=T(run, 1000, 4000))
+    run.exhaustive.append("all erasure patterns for M<=%s, redundancy<=%s" % (T(run, 7, 10), T(run, 4, 6)))
+    t = run.record("fec", "encode", n=T(run, 150, 6000))
+    run.validate("fec", t, "Trace_fec", label="(V) sizes 1..64 x counts 1..300 x redundancy 0..100, invalid sizes", chunk=T(run, 12, 60))
+    run.require_kinds("fec/fec", "fec/feclin")
+    run.rc = run.finish(assumptions=["TS004 reference matrix_line / prbs23 in spec/lorawan/FragFEC.tla", "negative redundancy is DON'T-CARE"])
+
+
+PROPS = {"C01": c01, "C18": c18, "C19": c19, "C20": c20, "C11": c11, "C14": c14, "C15": c15, "C12": c12, "C13": c13, "C05": c05, "C02": c02, "C03": c03, "C04": c04, "C06": c06, "C07": c07, "C08": c08}
 
 
 def replay(run, path):
